@@ -92,6 +92,15 @@ func leafVariants() []leafDoc {
 		`<mj-image src="i.png"/>`, `<mj-image src="i.png" href="u"/>`, `<mj-image src="i.png" href="u" fluid-on-mobile="true" srcset="a 1x" usemap="#m"/>`,
 		`<mj-divider/>`, `<mj-divider width="50%" align="left"/>`, `<mj-spacer/>`, `<mj-spacer height="10px" container-background-color="#eee"/>`,
 		`<mj-table><tr><td>c</td></tr></mj-table>`, `<mj-table></mj-table>`, `<mj-raw><p>rawp</p></mj-raw>`, `<mj-raw></mj-raw>`,
+		// author HTML of every shape inside the components that re-serialise it: elements without any content (written with an end
+		// tag or self-closed), with attributes only, with white space only, nested empties, void elements written both ways
+		`<mj-table><tr><td></td><td>b</td></tr><tr></tr><tr><td/><th></th><td class="x" style="top:0"></td><td> </td></tr><tbody/><tfoot></tfoot></mj-table>`,
+		`<mj-table><tr><td><span></span><b/><i> </i><a href="u"></a><br><br/><img src="i.png"><img src="j.png"/></td></tr><colgroup><col><col/></colgroup></mj-table>`,
+		`<mj-text><p></p><span/><div><b></b></div><ul><li></li><li/></ul><br><hr/>x</mj-text>`,
+		`<mj-button href="u"><b></b><span/><i> </i></mj-button>`, `<mj-button href="u"></mj-button>`, `<mj-text></mj-text>`, `<mj-text> </mj-text>`,
+		`<mj-accordion><mj-accordion-element><mj-accordion-title><b></b><i/></mj-accordion-title><mj-accordion-text><p></p><span/></mj-accordion-text></mj-accordion-element></mj-accordion>`,
+		`<mj-navbar><mj-navbar-link href="/a"><b></b></mj-navbar-link><mj-navbar-link href="/b"></mj-navbar-link></mj-navbar>`,
+		`<mj-social><mj-social-element name="facebook" href="h"><b></b><i/></mj-social-element><mj-social-element name="twitter" href="t"></mj-social-element></mj-social>`,
 	}
 	for _, s := range simple {
 		leaves = append(leaves, leaf{"simple", "", "", []string{s}})
